@@ -38,6 +38,9 @@ INSTANCES = {
     # create_solution / create_solution_from tables (one step from the initial state)
     "LabSOL": dict(module="MC_Lab", consts=dict(Subst="Subst5", Names="SOL_Names", Shape="SOL_Shape", InitVes="SOL_Init",
                                                 SolCases="SOL_CasesQuick", FromCases="SOL_FromQuick"), den_bound=1000),
+    # a solvent container used, changed, and used again (depth 3, a dozen solution requests, one transfer)
+    "LabSOL2": dict(module="MC_Lab", consts=dict(Subst="Subst5", Names="SOL_Names", Shape="SOL_Shape", InitVes="SOL_Init",
+                                                 Forms="SOL2_Forms", Fracs="HalfOnly", TUnits="Litres", SolCases="SOL2_Cases"), den_bound=4000),
 }
 
 
